@@ -535,6 +535,7 @@ func (h *History) iterOp(t *rapid.T, ti int) {
 	n := s.model.Len()
 	op.Stop = drawInt(t, -1, n, "stop")
 	op.Re = drawInt(t, 1, 3, "re")
+	op.Btw = drawInt(t, 0, 1, "btw")
 	h.emit(t, op)
 }
 
